@@ -3395,7 +3395,7 @@ bool PolyGamma::is_canonical(const RCP<const Basic> &n,
                              const RCP<const Basic> &x)
 {
     if (is_a_Number(*x) and not(down_cast<const Number &>(*x)).is_positive()) {
-        return false;
+        return is_a<Rational>(*x);
     }
     if (eq(*n, *zero)) {
         if (eq(*x, *one)) {
@@ -3440,7 +3440,12 @@ RCP<const Basic> polygamma(const RCP<const Basic> &n_,
     // Only special values are being evaluated
     if (is_a_Number(*x_)
         and not(down_cast<const Number &>(*x_)).is_positive()) {
-        return ComplexInf;
+        // the poles are the non-positive integers only
+        if (is_a<Integer>(*x_) or not down_cast<const Number &>(*x_).is_exact()
+            or down_cast<const Number &>(*x_).is_complex()) {
+            return ComplexInf;
+        }
+        return make_rcp<const PolyGamma>(n_, x_);
     }
     if (is_a<Integer>(*n_) and is_a<Integer>(*x_)) {
         auto n = down_cast<const Integer &>(*n_).as_int();
